@@ -423,6 +423,15 @@ class Evaluator:
                 if kept:
                     for s3, v in self.ev(e.elt, s2):
                         elt_ty = v.ty if elt_ty is None else join_ty(elt_ty, v.ty)
+                        # the rule below keeps the heap of the state before the comprehension: an element expression (or filter) that writes
+                        # to existing state is outside the rule
+                        for key_, val_ in s3.heap.d.items():
+                            if key_ == ('alloc',) or key_[0] in ('list', 'dict', 'set') or key_ == ('g', '$epoch'):
+                                continue
+                            before_ = s.heap.d.get(key_)
+                            if before_ is None or any(a_ is not b_ and not a_.eq(b_) for a_, b_ in zip(before_, val_)):
+                                if key_[0] == 'f' and not elt_simple:
+                                    raise Unsupported('comprehension whose element expression writes to %s' % (key_,))
             if elt_ty is None:
                 elt_ty = x.ty
             # the result list (built from the state before the arbitrary element was looked at)
